@@ -354,6 +354,25 @@ def c10(si, arrs, G, tmin, statuses, legal, ties=False, subsets_max=4, query_ext
                     bad.append(("query_subset", "get_statuses(nodelist=%r, time=%r) = %r" % (list(sub), q, gsub))); break
             except Exception as e:
                 bad.append(("query_exc", "get_statuses(nodelist=%r, time=%r) raised %r" % (list(sub), q, e))); break
+    # reading the object does not change it: every accessor gives the same answer the second time
+    if not bad:
+        try:
+            if hist_of(si, nodes) != hist:
+                bad.append(("reread_hist", "node histories read differently after the queries: %r then %r" % (hist, hist_of(si, nodes))))
+            st2, sD2 = si.summary()
+            if list(np.asarray(st2).tolist()) != times or any(list(np.asarray(sD2[s]).tolist()) != [r[s] for r in rows] for s in statuses):
+                bad.append(("reread_summary", "summary() after subset summaries/queries gives t=%s %s, first answer t=%s %s"
+                            % (list(np.asarray(st2).tolist()), {s: list(np.asarray(sD2[s]).tolist()) for s in statuses}, times, rows)))
+            if list(np.asarray(si.t()).tolist()) != times:
+                bad.append(("reread_t", "t() after the queries gives %s, first %s" % (list(np.asarray(si.t()).tolist()), times)))
+            try:
+                a = list(si.transmissions()); b = list(si.transmissions())
+            except Exception:      # (objects created without transmission records say so)
+                a = b = None
+            if a != b:
+                    bad.append(("reread_transmissions", "transmissions() read twice: %r then %r" % (a, b)))
+        except Exception as e:
+            bad.append(("reread_exc", "re-reading the object raised %r" % (e,)))
     return bad
 
 
